@@ -111,6 +111,7 @@ let run_conc toks =
       (* the schedule is built as a function of the initial state, after all callers are known *)
       let all_tasks _ = true in
       let early : bool option ref = ref None in
+      let probe : string option ref = ref None in
       (* herd: first caller runs until parked, its task enters the loader (TLoad), the others arrive *)
       let herd cf s cs =
         match cs with
@@ -188,6 +189,23 @@ let run_conc toks =
                 let s = run_caller cf s cb in
                 early := Some ((s.callers (nat_of_int cb)).c_pc = CIdle);
                 settle cf s all_tasks [ca; cb])
+        | "reinv" ->
+            let k = a 0 in
+            let ca = newc (OFetch (n_of_int k)) in
+            let ci1 = newc (OInvalidate (n_of_int k)) in
+            let cp = newc (OFetch (n_of_int k)) in
+            let ci2 = newc (OInvalidate (n_of_int k)) in
+            let cl = newc (OFetch (n_of_int k)) in
+            ([k], fun s ->
+                let s = run_caller cf s ca in
+                let s = (match stept cf s 0 with Some s' -> s' | None -> s) in   (* loader ran *)
+                let s = (match stept cf s 0 with Some s' -> s' | None -> s) in   (* map write; parked before the marker removal *)
+                let s = run_caller cf s ci1 in
+                let s = run_caller cf s cp in                                     (* the single poll *)
+                probe := Some (if (s.callers (nat_of_int cp)).c_pc = CIdle then "ready" else "pending");
+                let s = settle cf s all_tasks [ca; cp] in
+                let s = run_caller cf s ci2 in
+                settle cf s all_tasks [cl])
         | "stress" ->
             let k0, r, th = a 0, a 1, a 2 in
             let rounds = List.map (fun i -> (k0 + i, fetchers (k0 + i) th)) (range 0 r) in
@@ -209,7 +227,9 @@ let run_conc toks =
         Printf.sprintf "stress rounds %d dup %d split %d hang 0 panic 0" r dup split
       end else (match !early with
           | Some b -> Printf.sprintf "%s | early %d" (summary s keys) (if b then 1 else 0)
-          | None -> summary s keys)
+          | None -> (match !probe with
+              | Some p -> Printf.sprintf "%s | probe %s" (summary s keys) p
+              | None -> summary s keys))
   | _ -> failwith "bad conc case"
 
 let run (toks : string list) : string =
